@@ -7,6 +7,8 @@ import InfluxQL.Lemmas.StmtExprPieces
 import InfluxQL.Lemmas.SelectPieces
 import InfluxQL.Lemmas.SelectClauses
 import InfluxQL.Lemmas.SelectCQ
+import InfluxQL.Lemmas.SelectRegexFamilies
+import InfluxQL.Lemmas.ShowRegexSrc
 import InfluxQL.Lemmas.IntLit
 import InfluxQL.Lemmas.RegexRoundTrip
 import InfluxQL.Lemmas.ShowPieces
@@ -4747,5 +4749,259 @@ end
 example : (match (runHandler 200 .parseShowTagValuesStatement).run (PState.init exTagValuesTextW [] []) with
     | .ok _ => true
     | .error _ => false) = true := by decide +kernel
+
+/-! ### SELECT with regex sources and regex GROUP BY dimensions (`Lemmas/SelectRegexSrc.lean`, `SelectRegexBody.lean`, `SelectRegexSelect.lean`, `SelectRegexFamilies.lean`) -/
+
+/-- The class with regex sources and dimensions contains the class without them, at every depth. -/
+theorem selOKB_selOKR (tbl : List (Char × Char)) : ∀ (n : Nat) (st : SelectStmt), selOKB tbl n st = true → selOKR tbl n st = true
+  | 0, _, h => by simp [selOKB] at h
+  | n + 1, st, h => by
+    unfold selOKB at h
+    unfold selOKR
+    cases hf : st.fields with
+    | nil => rw [hf] at h; simp at h
+    | cons f fs =>
+      rw [hf] at h
+      simp only [Bool.and_eq_true, decide_eq_true_eq] at h ⊢
+      obtain ⟨⟨⟨⟨⟨⟨⟨⟨⟨hb, ht⟩, hne⟩, hsrc⟩, hraw⟩, hta⟩, hot⟩, hsn⟩, hen⟩, hdd⟩ := h
+      refine ⟨⟨⟨⟨⟨⟨⟨⟨⟨hb.toR, ht⟩, hne⟩, ?_⟩, hraw⟩, hta⟩, hot⟩, hsn⟩, hen⟩, hdd⟩
+      rw [List.all_eq_true] at hsrc ⊢
+      intro x hx
+      have hx' := hsrc x hx
+      cases x with
+      | measurement m =>
+        simp only [srcOKB] at hx'
+        simp only [srcOKRB, measOKRB, hx', Bool.true_or]
+      | subquery st' => exact selOKB_selOKR tbl n st' hx'
+
+/-- A statement of the class `selOKR tbl n` prints as the keyword `SELECT` and its tail. -/
+theorem selectRegex_print (tbl : List (Char × Char)) (n : Nat) (st : SelectStmt) (h : selOKR tbl n st = true) :
+    (Statement.select st).print = tx "SELECT" ++ selectTail st := by
+  obtain ⟨y, hy⟩ := selOKR_print tbl n st h
+  show st.print = _
+  rw [selectTail_of_print hy]
+  exact hy
+
+/-- A regex source prints as the optional `db.` / `rp.` prefix (as for a named measurement) and the regex literal. -/
+theorem regexSource_print (db rp src : Str) :
+    (Source.measurement (reM db rp src)).print = rePrefix db rp ++ '/' :: (escapeSlashes src ++ ['/']) :=
+  reM_print db rp src
+
+/-- **Print → parse, one regex source.** `parseSource` (with or without subqueries allowed) on a blank and
+`Measurement.String()` of a regex measurement `/re/`, `rp./re/`, `db../re/`, `db.rp./re/`, followed by *any* text,
+returns exactly the measurement — database and retention policy in their slots, the regex source unescaped — and
+stands directly behind the closing slash with nothing pushed back. (`FROM /re/` is read by the regex probe at the
+head of `parseSource`; after `db.rp.` the loop of `parseSegmentedIdents` stops at the slash by a rune look-ahead, and
+the second probe reads the literal.) The regex source satisfies the conditions of `regex_print_scan`
+(`RT.regexB`: no newline / NUL / CR, not ending in a backslash, not starting with `*`). -/
+theorem regexSource_print_parse (sub : Option (P SelectStmt)) (s : PState) (db rp src rest : Str)
+    (hok : ReSrcOK db rp src) (hs : s.Before (' ' :: ((Source.measurement (reM db rp src)).print ++ rest))) :
+    ∃ s', (parseSourceWith sub).run s = .ok (.measurement (reM db rp src), s') ∧ s'.Before rest := by
+  obtain ⟨s', h, hb, _⟩ := parseSource_regex sub s db rp src rest hok hs
+  exact ⟨s', h, hb⟩
+
+/-- **Print → parse, SELECT with regex sources and regex dimensions.** As `selectSub_print_parse_partial`, over the
+larger class `selOKR s.lowerTbl n st` (decidable, on the AST; `selOKB_selOKR`): at every level a source may also be a
+regex measurement `/re/`, `rp./re/`, `db../re/`, `db.rp./re/` (`reMeasOKB`: no name, expressible database and retention
+policy, regex source of `RT.regexB`), and a `GROUP BY` dimension may also be a regex literal of that class
+(`dimOKR`; read by `parseRegex` in `parseDimension`, followed by `ScanIgnoreWhitespace; Unscan`).
+
+Partial — still excluded (all producible by the parser): regex sources containing a newline, NUL or CR, ending in a
+backslash or starting with `*` (the first three cannot be written back by `RegexLiteral.String()`; `/*` opens a
+comment), and the exclusions of `selectSub_print_parse_partial` other than regex sources / dimensions. -/
+theorem selectRegex_print_parse_partial (n fuel : Nat) (s : PState) (st : SelectStmt) (k : Str)
+    (hok : selOKR s.lowerTbl n st = true) (hk : Follow k selectStop) (hs : s.Before (selectTail st ++ k)) :
+    wp (runHandler (fuel + n + 3) .parseSelectStatement_targetNotRequired) s
+      (fun r s' => r = .select st ∧ RT.Stand s' k) (· = .fuel) := by
+  simp only [runHandler]
+  rw [wp_bind]
+  refine wp_mono (parseSelect_subR s.lowerTbl n fuel false st s k hok (fun h => by cases h) rfl hk hs) ?_ (fun _ h => h)
+  intro r s' ⟨hr, hs'⟩
+  rw [wp_pure, hr]
+  exact ⟨rfl, hs'⟩
+
+/-- The pieces are what `ExplainStatement.String()` writes, for a SELECT of the class `selOKR`. -/
+theorem explainRegex_print (tbl : List (Char × Char)) (n : Nat) (st : SelectStmt) (analyze verbose : Bool)
+    (h : selOKR tbl n st = true) :
+    (Statement.explain st analyze verbose).print = tx "EXPLAIN" ++ explainText analyze verbose st :=
+  explain_print_eqR tbl n st analyze verbose h
+
+/-- **Print → parse, EXPLAIN** over the class with regex sources and dimensions (`selOKR`); otherwise as
+`explain_print_parse_partial`. Partial: exclusions as in `selectRegex_print_parse_partial`. -/
+theorem explainRegex_print_parse_partial (n fuel : Nat) (s : PState) (st : SelectStmt) (analyze verbose : Bool) (k : Str)
+    (hok : selOKR s.lowerTbl n st = true) (hk : Follow k selectStop)
+    (hs : s.Before (explainText analyze verbose st ++ k)) :
+    wp (runHandler (fuel + n + 3) .parseExplainStatement) s
+      (fun r s' => r = .explain st analyze verbose ∧ RT.Stand s' k) (· = .fuel) :=
+  parseExplain_printR n fuel s st analyze verbose k hok hk hs
+
+/-- The pieces are what `CreateContinuousQueryStatement.String()` writes, for a SELECT of the class `selOKR`. -/
+theorem createContinuousQueryRegex_print (tbl : List (Char × Char)) (n : Nat) (name db : Str) (ev fo : Int)
+    (st : SelectStmt) (h : selOKR tbl n st = true) :
+    (Statement.createContinuousQuery name db st ev fo).print =
+      tx "CREATE CONTINUOUS QUERY" ++ cqText name db ev fo st :=
+  cq_print_eqR tbl n name db ev fo st h
+
+/-- **Print → parse, CREATE CONTINUOUS QUERY** over the class with regex sources and dimensions (`selOKR`); otherwise
+as `createContinuousQuery_print_parse_partial`. Partial: exclusions as in `selectRegex_print_parse_partial`. -/
+theorem createContinuousQueryRegex_print_parse_partial (n fuel : Nat) (s : PState) (name db : Str) (ev fo : Int)
+    (st : SelectStmt) (k : Str) (hex1 : Expressible name) (hex2 : Expressible db) (hev : LimOK ev) (hfo : LimOK fo)
+    (hok : selOKR s.lowerTbl n st = true) (htgt : st.target ≠ none) (hcq : cqOKB st ev fo = true) (hk : WordEnd k)
+    (hs : s.Before (cqText name db ev fo st ++ k)) :
+    wp (runHandler (fuel + n + 3) .parseCreateContinuousQueryStatement) s
+      (fun r s' => r = .createContinuousQuery name db st ev fo ∧ RT.Stand s' k) (· = .fuel) :=
+  parseCQ_printR n fuel s name db ev fo st k hex1 hex2 hev hfo hok htgt hcq hk hs
+
+/-- Non-vacuity: `SELECT mean(x) FROM /cpu.*/, "my db".rp./a\/b/, db../x/, (SELECT value AS x FROM rp./^m$/ GROUP BY
+/host/), m GROUP BY /^dc[0-9]/, region, /b\/c/ LIMIT 5`. -/
+def exRe1 : SelectStmt :=
+  wideSelect ⟨.varRef "value".toList .Unknown, ['x']⟩ [] none [.measurement (reM [] "rp".toList "^m$".toList)] none
+    [.regex "host".toList] .null .none [] 0 0 0 0 none
+def exRe0 : SelectStmt :=
+  wideSelect ⟨.call "mean".toList [.varRef ['x'] .Unknown], []⟩ [] none
+    [.measurement (reM [] [] "cpu.*".toList), .measurement (reM "my db".toList "rp".toList "a/b".toList),
+     .measurement (reM "db".toList [] ['x']), .subquery exRe1, qualSrc ([], [], ['m'])] none
+    [.regex "^dc[0-9]".toList, .varRef "region".toList .Unknown, .regex "b/c".toList] .null .none [] 5 0 0 0 none
+
+example : selectTail exRe0 = (" mean(x) FROM /cpu.*/, \"my db\".rp./a\\/b/, db../x/, (SELECT value AS x FROM rp./^m$/ " ++
+    "GROUP BY /host/), m GROUP BY /^dc[0-9]/, region, /b\\/c/ LIMIT 5").toList := by decide +kernel
+
+-- in the new class, not in the old one; a regex ending in a backslash or starting with `*` is outside
+example : selOKR [] 2 exRe0 = true ∧ selOKR [] 1 exRe0 = false ∧ selOKB [] 2 exRe0 = false ∧ selOKR [] 3 exSub0 = true ∧
+    selOKR [] 1 (wideSelect ⟨.varRef ['a'] .Unknown, []⟩ [] none [.measurement (reM [] [] ['a', '\\'])] none [] .null .none []
+      0 0 0 0 none) = false ∧
+    selOKR [] 1 (wideSelect ⟨.varRef ['a'] .Unknown, []⟩ [] none [qualSrc ([], [], ['m'])] none [.regex ['*']] .null .none []
+      0 0 0 0 none) = false := by decide +kernel
+
+section
+attribute [local irreducible] wp
+example : wp (runHandler 205 .parseSelectStatement_targetNotRequired) (PState.init (selectTail exRe0) [] [])
+    (fun st s' => st = .select exRe0 ∧ RT.Stand s' [eofRune]) (· = .fuel) :=
+  selectRegex_print_parse_partial 2 200 (PState.init (selectTail exRe0) [] []) exRe0 [eofRune] (by decide +kernel)
+    (Follow.eof _ (by decide)) (init_before (selectTail exRe0) (by decide +kernel))
+
+example : wp (runHandler 205 .parseExplainStatement) (PState.init (explainText false true exRe0) [] [])
+    (fun st s' => st = .explain exRe0 false true ∧ RT.Stand s' [eofRune]) (· = .fuel) :=
+  explainRegex_print_parse_partial 2 200 (PState.init (explainText false true exRe0) [] []) exRe0 false true [eofRune]
+    (by decide +kernel) (Follow.eof _ (by decide)) (init_before (explainText false true exRe0) (by decide +kernel))
+end
+
+-- the kernel runs the model parser on the printed text: the fuel suffices and the statement prints back the same
+example : (match (runHandler 205 .parseSelectStatement_targetNotRequired).run (PState.init (selectTail exRe0) [] []) with
+    | .ok (.select st, _) => st.print == exRe0.print
+    | _ => false) = true := by decide +kernel
+
+
+/-! ### DELETE / DROP SERIES / SHOW SERIES with wide conditions and regex sources (`Lemmas/ShowRegexSrc.lean`) -/
+
+/-- What DELETE / DROP SERIES write, for *all* source lists and conditions. -/
+theorem deleteLike_print_wide (xs : List Source) (c : Option Expr) :
+    (Statement.deleteSeries xs c).print = tx "DELETE" ++ deleteLikeTextS xs c ∧
+    (Statement.dropSeries xs c).print = tx "DROP SERIES" ++ deleteLikeTextS xs c := by
+  have p1 : (Statement.deleteSeries xs c).print = tx "DELETE" ++ clauseFrom xs ++ clauseWhere c := rfl
+  have p2 : (Statement.dropSeries xs c).print = tx "DROP SERIES" ++ clauseFrom xs ++ clauseWhere c := rfl
+  rw [p1, p2, clauseFrom_srcs, clauseWhere_eq]
+  simp only [deleteLikeTextS, List.append_assoc, and_self]
+
+/-- **Print → parse, DELETE / DROP SERIES, wide conditions and regex sources.** `[FROM x1, …] [WHERE cond]` (at least
+one of the two). Sources: measurements named or given by a regex (`measSrcOKB`: `m`, `rp.m`, `/re/`, `rp./re/` … with
+expressible names, regex sources of `RT.regexB`) that pass the handler's own restriction (`sourceRestriction`: no
+database, and for DROP SERIES no retention policy — every statement the handler returns satisfies it); condition of
+C03's wide class relative to the table of the input (`CondOKW`: calls, number / duration literals —
+`time > now() - 90m AND value >= 1.5`).
+
+Partial — excluded (producible by the parser): regex sources with newline / NUL / CR, ending in `\` or starting with `*`;
+conditions outside the wide class (call names needing quotes or changed by the table, the negated-operand trees,
+non-canonical decimals); sources with an empty name (`empty-identifier-not-printed`). -/
+theorem deleteLike_print_parse_wide_partial (fuel : Nat) (s : PState) (xs : List Source) (c : Option Expr) (k : Str)
+    (hx : ∀ y ∈ xs, measSrcOKB y = true) (hc : CondOKW s.lowerTbl c) (hne : ¬ (c = none ∧ xs = []))
+    (hk : Follow k [.FROM, .COMMA, .WHERE]) (hs : s.Before (deleteLikeTextS xs c ++ k)) :
+    (sourceRestriction false xs = none →
+      wp (runHandler fuel .parseDeleteStatement) s
+        (fun st s' => st = .deleteSeries xs c ∧ RT.Stand s' k) (· = .fuel)) ∧
+    (sourceRestriction true xs = none →
+      wp (runHandler fuel .parseDropSeriesStatement) s
+        (fun st s' => st = .dropSeries xs c ∧ RT.Stand s' k) (· = .fuel)) := by
+  have hx' : ∀ y ∈ xs, MeasSrcOK y := fun y hy => measSrcOK_of y (hx y hy)
+  constructor
+  · intro hr
+    simp only [runHandler]
+    rw [wp_bind]
+    refine wp_mono (parseDeleteLike_printW fuel false s xs c k hx' hr hc hne hk hs) ?_ (fun _ h => h)
+    intro r s' ⟨hr, st⟩
+    subst hr
+    exact ⟨rfl, st⟩
+  · intro hr
+    simp only [runHandler]
+    rw [wp_bind]
+    refine wp_mono (parseDeleteLike_printW fuel true s xs c k hx' hr hc hne hk hs) ?_ (fun _ h => h)
+    intro r s' ⟨hr, st⟩
+    subst hr
+    exact ⟨rfl, st⟩
+
+/-- What SHOW SERIES writes, for all source lists and conditions and the sort lists the parser returns. -/
+theorem showSeries_print_wide (db : Str) (xs : List Source) (c : Option Expr) (sf : List SortField) (l o : Int)
+    (hsf : sortOKB sf = true) :
+    (Statement.showSeries db xs c sf l o).print = tx "SHOW SERIES" ++ showSeriesTextS db xs c sf l o := by
+  have p1 : (Statement.showSeries db xs c sf l o).print =
+      tx "SHOW SERIES" ++ clauseOn db ++ clauseFrom xs ++ clauseWhere c ++ clauseOrderBy sf ++
+        clausePos "LIMIT" l ++ clausePos "OFFSET" o := rfl
+  rw [p1, clauseFrom_srcs, clauseWhere_eq, clauseOn_onDbText, (clausePos_eq l).1, (clausePos_eq o).2.1,
+    clauseOrderBy_eq sf hsf]
+  simp only [showSeriesTextS, List.append_assoc]
+
+/-- **Print → parse, SHOW SERIES, wide conditions, regex sources, ORDER BY.**
+`[ON db] [FROM x1, …] [WHERE cond] [ORDER BY [time] ASC|DESC] [LIMIT l] [OFFSET o]`: sources named (`db.rp.m` / `db..m` /
+`rp.m` / `m`) or regex (`/re/`, `rp./re/`, `db../re/`, `db.rp./re/`) — `measSrcOKB` —, condition of the wide class,
+the sort lists `parseOrderBy` returns (`sortOKB`), limit and offset in the parser's range.
+
+Partial — excluded as in `deleteLike_print_parse_wide_partial` (regex sources outside `RT.regexB`, conditions outside the
+wide class, empty names). -/
+theorem showSeries_print_parse_wide_partial (fuel : Nat) (s : PState) (db : Str) (xs : List Source) (c : Option Expr)
+    (sf : List SortField) (l o : Int) (k : Str)
+    (hexdb : Expressible db) (hx : ∀ y ∈ xs, measSrcOKB y = true) (hc : CondOKW s.lowerTbl c) (hsf : sortOKB sf = true)
+    (hl : 0 ≤ l ∧ l ≤ maxInt64) (ho : 0 ≤ o ∧ o ≤ maxInt64) (hk : Follow k showSeriesStop)
+    (hs : s.Before (showSeriesTextS db xs c sf l o ++ k)) :
+    wp (runHandler fuel .parseShowSeriesStatement) s
+      (fun st s' => st = .showSeries db xs c sf l o ∧ RT.Stand s' k) (· = .fuel) := by
+  simp only [runHandler]
+  exact parseShowSeries_printW fuel s db xs c sf l o k hexdb (fun y hy => measSrcOK_of y (hx y hy)) hc hsf hl ho hk hs
+
+/-- Non-vacuity: `DELETE FROM /cpu.*/, rp./a\/b/, "my m" WHERE time > now() - 90m AND value >= 1.5` (DROP SERIES rejects the
+retention policy) and `SHOW SERIES ON "my db" FROM db.rp./^x/, cpu WHERE … ORDER BY time DESC LIMIT 10`. -/
+def exDelSrcs : List Source :=
+  [.measurement (reM [] [] "cpu.*".toList), .measurement (reM [] "rp".toList "a/b".toList), qualSrc ([], [], "my m".toList)]
+def exSeriesSrcs : List Source :=
+  [.measurement (reM "db".toList "rp".toList "^x".toList), qualSrc ([], [], "cpu".toList)]
+def exDelTextW : Str := deleteLikeTextS exDelSrcs exCondW
+def exSeriesTextW : Str :=
+  showSeriesTextS "my db".toList exSeriesSrcs exCondW [⟨"time".toList, false⟩] 10 0
+
+example : exDelTextW = " FROM /cpu.*/, rp./a\\/b/, \"my m\" WHERE time > now() - 90m AND value >= 1.5".toList ∧
+    exSeriesTextW = (" ON \"my db\" FROM db.rp./^x/, cpu WHERE time > now() - 90m AND value >= 1.5 ORDER BY time DESC " ++
+      "LIMIT 10").toList ∧
+    sourceRestriction false exDelSrcs = none ∧ sourceRestriction true exDelSrcs ≠ none := by decide +kernel
+
+section
+attribute [local irreducible] wp
+example : wp (runHandler 200 .parseDeleteStatement) (PState.init exDelTextW [] [])
+    (fun st s' => st = .deleteSeries exDelSrcs exCondW ∧ RT.Stand s' [eofRune]) (· = .fuel) :=
+  (deleteLike_print_parse_wide_partial 200 (PState.init exDelTextW [] []) exDelSrcs exCondW [eofRune] (by decide +kernel)
+    (show CondOKW [] exCondW by decide +kernel) (by decide +kernel) (Follow.eof _ (by decide))
+    (init_before exDelTextW (by decide +kernel))).1 (by decide +kernel)
+
+example : wp (runHandler 200 .parseShowSeriesStatement) (PState.init exSeriesTextW [] [])
+    (fun st s' => st = .showSeries "my db".toList exSeriesSrcs exCondW [⟨"time".toList, false⟩] 10 0 ∧
+      RT.Stand s' [eofRune]) (· = .fuel) :=
+  showSeries_print_parse_wide_partial 200 (PState.init exSeriesTextW [] []) "my db".toList exSeriesSrcs exCondW
+    [⟨"time".toList, false⟩] 10 0 [eofRune] (by decide +kernel) (by decide +kernel)
+    (show CondOKW [] exCondW by decide +kernel) (by decide +kernel) (by decide) (by decide) (Follow.eof _ (by decide))
+    (init_before exSeriesTextW (by decide +kernel))
+end
+
+example : (match (runHandler 200 .parseDeleteStatement).run (PState.init exDelTextW [] []) with
+    | .ok (st, _) => st.print == tx "DELETE" ++ exDelTextW
+    | .error _ => false) = true := by decide +kernel
+
 
 end InfluxQL.C02
